@@ -198,6 +198,36 @@ def stateful_model(seed=0, second_fc=False):
   return g.bytes(), {"x0": [1, 4]}
 
 
+STATEFUL_CHAIN = {"ops": [{"kind": "FC", "ins": [0, 1, 2], "outs": [3]}, {"kind": "UNK", "ins": [3, 4, 5, 6, 7], "outs": [8]},
+                          {"kind": "FC", "ins": [8, 9, 10], "outs": [11]}],
+                  "trole": ["act", "w", "b", "act", "c", "c", "c", "var", "act", "w", "b", "act"], "gins": [0], "gouts": [11]}
+
+
+def stateful_chain(seed=0):
+  """STATEFUL_CHAIN as a model: x -> FULLY_CONNECTED -> RNN cell (state in a variable tensor) -> FULLY_CONNECTED -> y, tensors named
+  as `build` names them. Returns (bytes, info) like `build`."""
+  rng = np.random.default_rng(seed)
+  g = G(b"stateful-chain")
+  sg = g.subgraph()
+  r = lambda *sh: (rng.integers(-8, 9, size=sh) / 8.0).astype(np.float32)
+  shapes = [[1, 4], [3, 4], [3], [1, 3], [2, 3], [2, 2], [2], [1, 2], [1, 2], [2, 2], [2], [1, 2]]
+  for t, sh in enumerate(shapes):
+    role = STATEFUL_CHAIN["trole"][t]
+    if role in ("w", "b", "c"):
+      g.tensor(sg, tname(0, t), sh, r(*sh))
+    else:
+      g.tensor(sg, tname(0, t), sh, buffer=0)
+  sg.tensors[7].isVariable = True
+  g.op(sg, B.FULLY_CONNECTED, [0, 1, 2], [3], opt(S.FullyConnectedOptionsT, keepNumDims=False), BO.FullyConnectedOptions)
+  g.op(sg, B.RNN, [3, 4, 5, 6, 7], [8], opt(S.RNNOptionsT, fusedActivationFunction=S.ActivationFunctionType.TANH), BO.RNNOptions)
+  g.op(sg, B.FULLY_CONNECTED, [8, 9, 10], [11], opt(S.FullyConnectedOptionsT, keepNumDims=False), BO.FullyConnectedOptions)
+  sg.inputs, sg.outputs = [0], [11]
+  g.signature("serving_default", 0, [("x0", 0)], [("o0", 11)])
+  info = {"names": [[tname(0, t) for t in range(len(shapes))]], "shapes": [shapes], "codes": [["FULLY_CONNECTED", "RNN", "FULLY_CONNECTED"]],
+          "nt0": [len(shapes)], "nops0": [3]}
+  return g.bytes(), info
+
+
 def scn_key(scn):
   return hashlib.sha256(json.dumps(scn, sort_keys=True).encode()).hexdigest()[:16]
 
@@ -363,7 +393,9 @@ def build(scn, seed=0, rng=None, const_fn=None, signatures=True, name_fn=None):
           setc(ins[3], [4])
       elif k == "BMM":
         if role[ins[1]] == "w":
-          setc(ins[1], [1, 2, 4, 4])
+          # the constant rhs has the lhs's rank or is a plain rank-2 matrix (broadcast over the batch dimensions); chosen per
+          # weight tensor / buffer group like adj_y, so that sharers agree and a subgraph is built alike inside a pair and alone
+          setc(ins[1], [4, 4] if (seed // 2 + (tbuf[ins[1]] or ins[1])) % 3 == 0 else [1, 2, 4, 4])
       elif k == "BMMC":
         # constant lhs [1, 2, w, w] x activation rhs [n, 2, w, 4] -> [n, 2, w, 4]
         setc(ins[0], [1, 2, sh[ins[1]][2], sh[ins[1]][2]])
